@@ -152,7 +152,7 @@ def greedy_failures(out, ny):
             rivals = [r for r in range(len(inds)) if inds[r][c] == j and dist(r, c) < dist(i, c)]
             if rivals:
                 fs.append(Failure('not-closest-claimant', 'pair (%d,%d) formed in column %d at distance %r, but row %d has the same '
-                                  'candidate there at %r' % (i, j, c, dist(i, c), rivals[0], dist(rivals[0], c))))
+                                  'candidate there at %r' % (i, j, c, dist(i, c), rivals[0], dist(rivals[0], c)), literal=False))
                 break
         if fs:
             break
@@ -164,12 +164,12 @@ def greedy_failures(out, ny):
     for v, rows in sorted(firsts.items()):
         if v not in partner:
             fs.append(Failure('first-neighbour-unmatched', 'row %d of y is the nearest neighbour of rows %s of x but is not matched; '
-                              'pairs=%s' % (v, rows[:10], list(zip(out['x_inds'], out['y_inds']))[:20])))
+                              'pairs=%s' % (v, rows[:10], list(zip(out['x_inds'], out['y_inds']))[:20]), literal=False))
             break
         x = partner[v]
         if x not in rows or dist(x, 0) > min(dist(r, 0) for r in rows):
             fs.append(Failure('first-neighbour-not-closest', 'row %d of y is the nearest neighbour of rows %s of x, matched to row %d'
-                              % (v, rows[:10], x)))
+                              % (v, rows[:10], x), literal=False))
             break
     return fs
 
